@@ -5,6 +5,9 @@ from ..base import Ctx, Prop
 from .. import storegen, storelib
 
 
+commitlib_ops = {"create", "update", "delbucket", "insert", "bulk", "replace", "replacelast", "delete", "read"}
+
+
 class MalGen(storegen.HistGen):
     """histories that also break C02's precondition on purpose: ids of other buckets, ids that never
     existed, single inserts carrying an id, operations through stale handles of deleted buckets"""
@@ -88,21 +91,51 @@ class C04(Prop):
                 g.step()
             for be in storelib.BACKENDS:
                 out.append(("malformed-history", {"backend": be, "ops": g.ops}))
+        # the same kind of histories on the lazily committing sqlite store observed WITHOUT committing (raw SELECTs on
+        # the store's own connection): a write that is only buffered must survive a rejected operation on another bucket
+        for i in range(ctx.pick(60, 800)):
+            g = MalGen(rng, nbuckets=rng.choice([2, 3]), grid=rng.choice([2, 4]))
+            g.start()
+            for _ in range(rng.randint(5, length)):
+                g.step()
+                if rng.random() < 0.1:
+                    g.ops.append(rng.choice([["delbucket", "ghost"], ["update", "ghost", {"name": "x"}], ["update", g.buckets[0], {}]]))
+            out.append(("malformed-history-raw", {"backend": "sqlite", "raw": True, "ops": [[0] + o for o in g.ops]}))
         return out
 
     def impl(self, case):
+        if case.get("raw"):
+            from .. import commitlib
+
+            r = commitlib.run_history({"lazy": True, "ops": [o for o in case["ops"] if o[1] in commitlib_ops]})
+            return {"resolved": r["resolved"], "outs": [s["out"] for s in r["steps"]],
+                    "dumps": [commitlib.norm_view(s["own"]) for s in r["steps"]], "raw": r}
         r = storelib.Runner(case["backend"]).run(case["ops"])
         r["outs"] = [storelib.norm_err(case["backend"], o) for o in r["outs"]]
         return r
 
     def model_lines(self, case, impl_out):
+        if case.get("raw"):
+            from .. import commitlib
+
+            return commitlib.model_lines({"lazy": True}, impl_out["raw"])
         return storelib.model_lines(case["backend"], impl_out["resolved"])[0]
 
     def model_out(self, case, answers, impl_out):
+        if case.get("raw"):
+            from .. import commitlib
+
+            m = commitlib.model_out({"lazy": True}, answers, impl_out["raw"])
+            return {"resolved": impl_out["resolved"], "outs": [s["out"] for s in m["steps"]],
+                    "dumps": [s["own"] for s in m["steps"]], "raw": m}
         _, idx = storelib.model_lines(case["backend"], impl_out["resolved"])
         return storelib.model_out(case["backend"], impl_out["resolved"], answers, idx)
 
     def same(self, case, io, mo):
+        if case.get("raw"):
+            from .. import commitlib
+
+            return commitlib.same(io["raw"], mo["raw"])
         return storelib.same_history(case["backend"], io, mo)
 
     def oracle(self, case, out):
@@ -124,10 +157,16 @@ class C04(Prop):
         return True
 
     def features(self, case, out):
+        if case.get("raw"):
+            return ["sqlite-raw:" + o[0] + ":" + r[0] for o, r in zip(out["resolved"], out["outs"])]
         return [case["backend"] + ":" + o[0] + ":" + r[0] + (":" + r[1] if r[0] == "err" else "")
                 for o, r in zip(case["ops"], out["outs"])]
 
     def shrink(self, case):
+        if case.get("raw"):
+            for ops in storegen.shrink_history([o[1:] for o in case["ops"]]):
+                yield {**case, "ops": [[0] + o for o in ops]}
+            return
         for ops in storegen.shrink_history(case["ops"]):
             yield {**case, "ops": ops}
 
